@@ -29,6 +29,13 @@ def user_table(rng, zero_prob=0.1):
             ws[0] = 1
         tot = sum(ws)
         tab[aa] = {c: w / tot for c, w in zip(sorted(cs), ws)}
+    if rng.random() < 0.2:
+        # count-derived tables: the best and the second-best synonym nearly tie (relative difference ~1e-7)
+        for aa, fr in tab.items():
+            if len(fr) >= 2:
+                best = max(sorted(fr), key=lambda c: fr[c])
+                second = rng.choice(sorted(c for c in fr if c != best))
+                fr[second] = fr[best] * (1 - 2e-7)
     return tab
 
 
@@ -67,8 +74,18 @@ def rand_hard_constraint(rng, seq, kinds=None):
         a = rng.randint(0, n - 3 * m)
         strand = rng.choice([1, 1, -1])
         if k == "rare":
-            return dict(kind="rare", location=[a, a + 3 * m, strand], min_frequency=rng.choice([0.1, 0.2, 0.3, 0.5]),
-                        table_seed=rng.randint(0, 10 ** 6))
+            d = dict(kind="rare", location=[a, a + 3 * m, strand], min_frequency=rng.choice([0.1, 0.2, 0.3, 0.5]),
+                     table_seed=rng.randint(0, 10 ** 6))
+            if rng.random() < 0.5:
+                # a threshold exactly ON the frequency of a codon present in the region (">= min_frequency" is allowed)
+                import random as _random
+                table = user_table(_random.Random(d["table_seed"]))
+                sub = seq[a:a + 3 * m] if strand != -1 else rc(seq[a:a + 3 * m])
+                j = 3 * rng.randint(0, m - 1)
+                fr = [f[sub[j:j + 3]] for f in table.values() if sub[j:j + 3] in f]
+                if fr and fr[0] > 0:
+                    d["min_frequency"] = fr[0]
+            return d
         sc = rng.choice([None, None, "keep", "ATG", ["ATG", "GTG"], "TTG"])
         return dict(kind="cds", location=[a, a + 3 * m, strand], table=rng.choice(TABLES), start_codon=sc,
                     translation=None if rng.random() < 0.8 else "".join(rng.choice("ACDEFGHIKLMNPQRSTVWY") for _ in range(m)))
